@@ -241,6 +241,21 @@ DUP_Fill == <<FC("p_dup", "col2", "W", "L"), FC("p", "row1", "W", "L")>>
 
 
 (***************************************************************************)
+(* TWIN: two different plates that are EQUAL in every respect - name,       *)
+(* shape, capacity, contents of every well (two replicates made by the     *)
+(* same helper).  They are still two plates: what leaves one arrives in    *)
+(* the other.  After the first transfer they differ.                       *)
+(***************************************************************************)
+TWIN_Init == {[s |-> Cont(Inf, C4(I(8), Zero, I(2), I(2))),
+               p |-> [cap |-> I(10), w |-> <<MkWell(C4(I(4), Zero, Zero, Zero)), MkWell(C4(I(2), I(1), Zero, Zero)),
+                                              MkWell(C4(Zero, Zero, I(1), I(2))), MkWell(Empty)>>],
+               p_dup |-> [cap |-> I(10), w |-> <<MkWell(C4(I(4), Zero, Zero, Zero)), MkWell(C4(I(2), I(1), Zero, Zero)),
+                                                  MkWell(C4(Zero, Zero, I(1), I(2))), MkWell(Empty)>>]]}
+TWIN_Forms == <<F4("p", "A1", "p_dup", "A1"), F4("p", "all", "p_dup", "all"), F4("p_dup", "row1", "p", "row1"),
+                F4("p", "row1", "p_dup", "row2"), F4("p_dup", "A2", "p", "plate"), F4("p", "col1", "p_dup", "B2"),
+                F4("s", "-", "p_dup", "row1")>>
+
+(***************************************************************************)
 (* LOT: two lots of one enzyme (same name, different specific activity).   *)
 (* Substance equality ignores the specific activity, so anything cached    *)
 (* per Substance is shared between the lots; mass-based requests must not. *)
